@@ -110,7 +110,7 @@ Definition mb_recv_chk (mtu : Z) (st : mb_state) (src : bytes) (pkt : bytes)
       if (mtu <? Z.of_N (h_total h))%Z then Err E_MTU
       else if h_count h <? 2 then Ok (st, Some (h, body))
       else
-        let k := (src, h_origin h, h_counter h) in
+        let k := (src, h_origin h, 4 * h_counter h + (if h_ask h then 2 else 0) + (if h_reply h then 1 else 0)) in
         let c := match col_get st k with
                  | Some c => c
                  | None => mkCol (h_count h) (repeat false (N.to_nat (h_count h))) (repeat 0 (N.to_nat (h_total h)))
